@@ -86,8 +86,9 @@ class Unit:
 
     def __init__(self, name, entry, make, post, base=None, inputs=None, replay=None, loop_budget=64, loop_budgets=None, timeout_ms=20000,
                  max_paths=4000, observers=None, panics='violation', panic_ok=None, budget='violation', bounds=None, assumptions=None,
-                 known_pos=None, canary=None, judge=None, allow_unsupported_paths=False, path_filter=None, tol_margin=None, int_only=False):
+                 known_pos=None, canary=None, judge=None, allow_unsupported_paths=False, path_filter=None, tol_margin=None, int_only=False, lin_inc=False):
         self.int_only = int_only
+        self.lin_inc = lin_inc
         self.name, self.entry, self.make, self.post = name, entry, make, post
         self.base = base or []
         self.inputs = inputs or {}          # name -> z3 term: reported in models / replay
@@ -116,6 +117,7 @@ def run_unit(unit, seed=0):
     eng.externals = ext.call_external
     eng.loop_budgets = dict(unit.loop_budgets)
     eng.int_mode = unit.int_only
+    eng.lin_inc = unit.lin_inc
     eng.base = list(unit.base)
     res = {'name': unit.name, 'obligations': [], 'paths': 0, 'blocks': 0, 'queries': 0, 'solver_s': 0.0, 'unsupported': [], 'panic_paths': 0,
            'budget_paths': 0, 'functions': {}, 'bounds': unit.bounds, 'assumptions': list(unit.assumptions), 'events': [], 'canary': None,
@@ -347,11 +349,16 @@ def replay_call(kernel, args, profile='debug', timeout=6):
     """runs the real engeom code on concrete inputs.  returns dict: {'ok': result} | {'panic': msg} | {'timeout': True}"""
     exe = os.path.join(BUILD, 'replay-target', profile, 'engeom-replay')
     try:
-        p = subprocess.run([exe, kernel], input=json.dumps(args), stdout=subprocess.PIPE, stderr=subprocess.PIPE, text=True, timeout=timeout)
+        def _lim():
+            import resource
+            resource.setrlimit(resource.RLIMIT_AS, (3 << 30, 3 << 30))      # a runaway loop that keeps allocating must not exhaust the sandbox
+        p = subprocess.run([exe, kernel], input=json.dumps(args), stdout=subprocess.PIPE, stderr=subprocess.PIPE, text=True, timeout=timeout, preexec_fn=_lim)
     except subprocess.TimeoutExpired:
         return {'timeout': True}
     if p.returncode != 0:
         msg = [l for l in p.stderr.split('\n') if 'panicked' in l or l.strip()]
+        if 'memory allocation' in p.stderr or p.returncode in (-6, -9, 134):
+            return {'timeout': True, 'note': 'aborted: memory limit reached (runaway allocation) ' + ' | '.join(msg[:2])[:200]}
         return {'panic': ' | '.join(msg[:3])[:400]}
     try:
         return {'ok': json.loads(p.stdout)}
